@@ -110,17 +110,22 @@ func genProfile(rng *core.Rng, i int) world.WorldSpec {
 	s.CSCAScheme = schemeFor(rng, s.CSCA, h1, i/5)
 	s.DSScheme = schemeFor(rng, s.DS, h2, i/11)
 	s.DGHash = pki.Hashes[(i/13)%5]
-	s.SIDForm = []string{"issuerSerial", "ski"}[(i/2)%2]
-	s.LDSVersion = (i / 4) % 2
-	s.NoSigning = i%9 == 0
-	s.HashNoParams = i%10 == 3
-	s.Indefinite = i%6 == 1
-	s.ExtraCerts = []int{0, 0, 1, 2}[(i/3)%4]
-	s.NameVariant = i%4 == 2
+	// the validity-neutral variations are drawn independently of each other and of the key matrix (index-derived
+	// strata aliased: name variant and issuer-and-serial never met)
+	s.SIDForm = core.Pick(rng, []string{"issuerSerial", "issuerSerial", "ski"})
+	s.LDSVersion = rng.Intn(2)
+	s.NoSigning = rng.Chance(1, 6)
+	s.HashNoParams = rng.Chance(1, 8)
+	s.Indefinite = rng.Chance(1, 5)
+	s.ExtraCerts = core.Pick(rng, []int{0, 0, 1, 2})
+	s.ExtraFirst = rng.Bool()
+	s.EmbedCSCA = rng.Chance(1, 3)
+	s.NameVariant = rng.Chance(1, 2)
+	s.HashOrder = core.Pick(rng, []int{0, 0, 1, 2})
 	s.DecoyAnchors = rng.Intn(4)
-	s.SameSKIDecoy = i%5 == 2
+	s.SameSKIDecoy = rng.Chance(1, 4)
 	if !s.NoSigning {
-		s.SignEdge = []int{0, 0, 1, 2, 5, 7}[(i/2)%6]
+		s.SignEdge = core.Pick(rng, []int{0, 0, 1, 2, 5, 7})
 	}
 	for _, n := range []int{7, 11, 12, 13, 16} {
 		if rng.Chance(1, 3) {
@@ -166,6 +171,9 @@ func (PKIProfileEngine) Shrink(ci any) []any {
 	add(func(s *world.WorldSpec) { s.SameSKIDecoy = false })
 	add(func(s *world.WorldSpec) { s.ExtraCerts = 0 })
 	add(func(s *world.WorldSpec) { s.NameVariant = false })
+	add(func(s *world.WorldSpec) { s.ExtraFirst = false })
+	add(func(s *world.WorldSpec) { s.EmbedCSCA = false })
+	add(func(s *world.WorldSpec) { s.HashOrder = 0 })
 	add(func(s *world.WorldSpec) { s.Indefinite = false })
 	add(func(s *world.WorldSpec) { s.HashNoParams = false })
 	add(func(s *world.WorldSpec) { s.SignEdge = 0 })
@@ -191,7 +199,7 @@ func (PKIProfileEngine) Run(prop string, ci any) *core.Outcome {
 	log := &term.EventLog{}
 	log.Add("sod", w.LDS[chip.FidSOD])
 	d, err, pan := buildDocument(w, w.LDS, w.MF)
-	key := profileKey(c.Spec) + fmt.Sprintf("|edge=%d|extra=%d|name=%v|ski2=%v|np=%v", c.Spec.SignEdge, c.Spec.ExtraCerts, c.Spec.NameVariant, c.Spec.SameSKIDecoy, c.Spec.HashNoParams)
+	key := profileKey(c.Spec) + fmt.Sprintf("|edge=%d|extra=%d|name=%v|ski2=%v|np=%v", c.Spec.SignEdge, c.Spec.ExtraCerts, c.Spec.NameVariant, c.Spec.SameSKIDecoy, c.Spec.HashNoParams) + fmt.Sprintf("|xf=%v|ec=%v|ho=%d", c.Spec.ExtraFirst, c.Spec.EmbedCSCA, c.Spec.HashOrder)
 	if pan != nil {
 		out.Violate("C09", "panic", key, "constructors panicked on a genuine document: %v", pan)
 		out.Violate("C12", "panic-in-constructor", "genuine", "constructors panicked on a genuine document: %v", pan)
